@@ -27,6 +27,7 @@ type Clause struct {
 type LoopSpec struct {
 	N      int
 	Vars   []Param
+	ExitAssume []Clause // assumed (trusted) when the loop exits: summaries such as "the map copy is complete"
 	Invs   []Clause
 	Unroll int
 }
@@ -47,6 +48,7 @@ type Contract struct {
 	MayPanic  []Clause
 	Modifies  []string
 	Preserves []string
+	CalleesPreserve []string
 	NoSafety  bool
 	InlineDepth int
 	HasMod    bool
@@ -80,7 +82,7 @@ func (c *Contract) HasProp(p string) bool {
 	return false
 }
 
-var kwRe = regexp.MustCompile(`^(prop|func|lemma|requires|ensures|modifies|preserves|nosafety|inline-depth|may-panic|maybe-nil|inline|trusted|noverify|loop|invariant|unroll|iface)\b(\[[A-Za-z0-9_\-\.]+\])?\s*(.*)$`)
+var kwRe = regexp.MustCompile(`^(prop|func|lemma|requires|ensures|modifies|preserves|callees-preserve|nosafety|inline-depth|may-panic|maybe-nil|inline|trusted|noverify|loop|invariant|exit-assume|unroll|iface)\b(\[[A-Za-z0-9_\-\.]+\])?\s*(.*)$`)
 
 // ParseContractFile extracts //@ blocks from one Go file.
 func ParseContractFile(path, pkgPath string) ([]*Contract, error) {
@@ -150,6 +152,13 @@ func ParseContractFile(path, pkgPath string) ([]*Contract, error) {
 					cur.Preserves = append(cur.Preserves, m)
 				}
 			}
+		case "callees-preserve":
+			for _, m := range splitTop(p.text, ',') {
+				m = strings.TrimSpace(m)
+				if m != "" {
+					cur.CalleesPreserve = append(cur.CalleesPreserve, m)
+				}
+			}
 		case "nosafety":
 			cur.NoSafety = true
 		case "inline-depth":
@@ -195,6 +204,11 @@ func ParseContractFile(path, pkgPath string) ([]*Contract, error) {
 				return fmt.Errorf("%s:%d: invariant outside loop", path, p.line)
 			}
 			curLoop.Invs = append(curLoop.Invs, cl)
+		case "exit-assume":
+			if curLoop == nil {
+				return fmt.Errorf("%s:%d: exit-assume outside loop", path, p.line)
+			}
+			curLoop.ExitAssume = append(curLoop.ExitAssume, cl)
 		case "unroll":
 			if curLoop == nil {
 				return fmt.Errorf("%s:%d: unroll outside loop", path, p.line)
@@ -595,12 +609,15 @@ func verif_ghost_flag(name string, x any) bool { return false }
 func verif_ghost_int(name string) int         { return 0 }
 func verif_preserves[T any](p *T)             {}
 func verif_preserves_obj[T any](p *T)         {}
+func verif_callees_preserve[T any](p *T)      {}
+func verif_preserves_map[K comparable, V any](m map[K]V) {}
 func verif_old[T any](f func() T) T           { return f() }
 func verif_forall[T any](f func(T) bool) bool { return true }
 func verif_exists[T any](f func(T) bool) bool { return true }
 func verif_fresh[T any](p *T) bool             { return true }
 func verif_fresh_slice[T any](s []T) bool      { return true }
 func verif_fresh_map[K comparable, V any](m map[K]V) bool { return true }
+func verif_maphas[K comparable, V any](m map[K]V, k K) bool { _, ok := m[k]; return ok }
 func verif_same_array[T any](a, b []T) bool    { return true }
 func verif_slice_at[T any](a, b []T, off int) bool { return true }
 func verif_slice_off[T any](a []T) int         { return 0 }
@@ -662,9 +679,14 @@ func (c *Contract) Generate() (string, error) {
 	for _, m := range c.Preserves {
 		if strings.HasPrefix(m, "obj(") && strings.HasSuffix(m, ")") {
 			fmt.Fprintf(&b, "\tverif_preserves_obj(%s)\n", m[4:len(m)-1])
+		} else if strings.HasPrefix(m, "map(") && strings.HasSuffix(m, ")") {
+			fmt.Fprintf(&b, "\tverif_preserves_map(%s)\n", m[4:len(m)-1])
 		} else {
 			fmt.Fprintf(&b, "\tverif_preserves(&(%s))\n", m)
 		}
+	}
+	for _, m := range c.CalleesPreserve {
+		fmt.Fprintf(&b, "\tverif_callees_preserve(&(%s))\n", m)
 	}
 	// ensures are rewritten first to collect the hoisted old() values
 	var ens []string
@@ -717,6 +739,14 @@ func (c *Contract) Generate() (string, error) {
 				return "", fmt.Errorf("%s loop %d: %v", c.Display(), n, rw2.err)
 			}
 			fmt.Fprintf(&b, "func verif_I_%d_%d_%d(%s) bool { return %s }\n", c.ID, n, k, paramDecl(ps), e)
+		}
+		for k, cl := range ls.ExitAssume {
+			rw2 := &rewriter{noHoist: true}
+			e := rw2.rewrite(cl.Expr, false)
+			if rw2.err != nil {
+				return "", fmt.Errorf("%s loop %d: %v", c.Display(), n, rw2.err)
+			}
+			fmt.Fprintf(&b, "func verif_I_%d_%d_x%d(%s) bool { return %s }\n", c.ID, n, k, paramDecl(ps), e)
 		}
 	}
 	return b.String(), nil
